@@ -196,12 +196,10 @@ Section Proofs.
   Qed.
 End Proofs.
 
-Section Build.
+Section ListZ.
   Variable D : Type.
-  Variable H : D -> D -> D.
   Variable dflt : D.
   Notation znth := (znth D dflt).
-  Notation spec_tree := (spec_tree D H dflt).
 
   Lemma znth_app1 (a b : list D) i : 0 <= i < zlen a -> znth (a ++ b) i = znth a i.
   Proof. intros. unfold MerkleSpec.znth, zlen in *. apply app_nth1. lia. Qed.
@@ -228,6 +226,15 @@ Section Build.
     revert a. induction k; intros a; [reflexivity|].
     destruct a; cbn [skipn Nat.add nth]; [destruct (Z.to_nat i); reflexivity|]. apply IHk.
   Qed.
+
+End ListZ.
+
+Section Build.
+  Variable D : Type.
+  Variable H : D -> D -> D.
+  Variable dflt : D.
+  Notation znth := (znth D dflt).
+  Notation spec_tree := (spec_tree D H dflt).
 
   Lemma write_slice_ok (nodes : list D) s src :
     0 <= s -> s + zlen src <= zlen nodes ->
